@@ -35,6 +35,8 @@ RULES = {
     "null": ("Rule(('a',), NullCondition())", []),
     "emptycast": ("Rule(('a', 'b'), Value.falsy(), cast={})", []),
     "docstr": ("Rule.from_spec({'path': ['a', 'b'], 'condition': {'value.equal_to': t}, 'doc': 'the b of a '})", [("t", "int")]),
+    "docraw": ("Rule(('a', 'b'), Value.equal_to(t), doc='the b of a ')", [("t", "int")]),
+    "docraw2": ("Rule(('s',), Value.equal_to(True), cast={str: valida.casting.cast_string_to_bool}, doc={'description': 'flag\\n'})", []),
     "docmap": ("Rule(('s',), Value.equal_to(True), cast={str: valida.casting.cast_string_to_bool}, doc={'description': ['flag'], 'examples': ['s: true']})", []),
 }
 
@@ -83,7 +85,7 @@ return ok
 COMBOS = [
     ["eq"], ["fan"], ["castbool"], ["castint"], ["castfan"], ["castmap"], ["keycond"], ["patharg"], ["patharg2"], ["intkey"], ["mol"],
     ["empty"], ["null"], ["emptycast"], ["castbool", "castint"], ["eq", "castbool", "fan"], ["castfan", "castmap"], ["keycond", "castint", "empty"],
-    ["patharg", "castint"], ["mol", "null", "castbool"], ["docstr"], ["docmap", "docstr", "fan"],
+    ["patharg", "castint"], ["mol", "null", "castbool"], ["docstr"], ["docmap", "docstr", "fan"], ["docraw"], ["docraw2", "eq"],
 ]
 
 
@@ -121,6 +123,23 @@ def cases(ctx):
     out.append(history_case("add_schema.casts_into_castfree",
                             "sch = Schema([Rule(('a', 'b'), Value.equal_to(t))])\njs1 = sch.to_json_like()\n"
                             "sch.add_schema(Schema([Rule(('port',), Value.greater_than(t), cast={str: int}), Rule(('port',), Value.length.less_than(6)), Rule(('port',), Value.dtype.equal_to(str))]), DataPath('srv'))", L))
+    # equality with the rebuilt schema does not depend on whether either of them has already validated documents
+    body = """
+sch = Schema([Rule(('a', 'b'), Value.equal_to(t)), Rule(('s',), Value.equal_to(True), cast={str: valida.casting.cast_string_to_bool})])
+doc = {'a': {'b': u1}, 's': 'true'}
+v1 = sch.validate(doc)
+back = Schema.from_json_like(sch.to_json_like())
+ok = note('a used schema round-trips to an equal schema', back == sch and sch == back)
+v2 = back.validate({'a': {'b': u2}, 's': 'x'})
+ok = ok and note('... still equal after the rebuilt one validated another document', back == sch and sch == back)
+v3 = sch.validate(doc)
+ok = ok and note('... and after both validated', Schema.from_json_like(back.to_json_like()) == sch)
+r = sch.rules[0]
+t1 = r.test(doc)
+ok = ok and note('a used rule round-trips to an equal rule', Rule.from_json_like(r.to_json_like()) == r)
+return ok
+"""
+    out.append(mk_case("c13.history.used_then_roundtrip", [("t", "int"), ("u1", UN), ("u2", "int")], body, pre=[f"BU({L}, t, u1, u2)"], stubs=["sym_repr"]))
     out.append(history_case("rules_edited", "sch.rules = sch.rules[:1] + [Rule(('n',), Value.is_instance(int), cast={str: int})]", L))
     out.append(history_case("rule_replaced", "sch.rules[0] = Rule(('n',), Value.not_equal_to(t), cast={str: int})", L))
     for n, names in enumerate(COMBOS):
